@@ -50,7 +50,7 @@ def scenario(targets, threads, order, json_out=False, extra=(), port=22):
     def setup(world, fo=fo):
         world.finish_order = fo
         world.finish_idx = 0
-    return {'argv': argv, 'servers': servers, 'files': {'targets.txt': '\n'.join(lines) + '\n'}, 'observe': True, 'setup': setup, 'alarm': 60}, labels
+    return {'argv': argv, 'servers': servers, 'files': {'targets.txt': '\n'.join(lines) + '\n'}, 'observe': True, 'setup': setup, 'alarm': 60, 'fresh': True}, labels
 
 
 def eager(sc):
@@ -263,8 +263,10 @@ def schedule_plans(ck, ops, max_preempt):
     return plans, covered
 
 
-def scheduled(sc, plan, labels, grace=0.4):
-    """The scenario with its worker threads driven through `plan` (segments [worker index, n])."""
+def scheduled(sc, plan, labels, grace=0.4, lines=False):
+    """The scenario with its worker threads driven through `plan` (segments [worker index, n]).  n counts network operations, or -
+    with lines=True - executed source lines of the tool's own modules (a worker can then be preempted anywhere in the tool's code,
+    not only where it touches the network)."""
     inner = sc.get('setup')
 
     def setup(world, inner=inner):
@@ -272,7 +274,23 @@ def scheduled(sc, plan, labels, grace=0.4):
         if inner is not None:
             inner(world)
         world.sched = _sched.Scheduler(plan, labels, grace=grace)
+        if lines:
+            import threading as _threading
+            sch = world.sched
+            world.sched_net = False          # the stops are the lines; network operations are not counted again
+
+            def local(frame, event, arg):
+                if event == 'line':
+                    sch.point('line')
+                return local
+
+            def tracer(frame, event, arg):
+                if event == 'call' and '/ssh_audit/' in frame.f_code.co_filename:
+                    return local
+                return None
+            _threading.settrace(tracer)      # applies to the worker threads the tool starts from now on
     out = dict(sc)
     out['setup'] = setup
     out['observe'] = True
+    out['fresh'] = True
     return out
